@@ -64,6 +64,7 @@ def call(w, fn, *a, **kw):
                 info['final_in_op'] = True
                 w.stats['final_in_op'] += 1
     A.begin_op(hook if w.pending_final is not None else None)
+    w.last_call = (fn, a, kw)
     try:
         try:
             v = fn(*a, **kw)
@@ -95,6 +96,40 @@ def owner_tags(w, prop):
     return tags
 
 
+def stale_cache_tags(w, m, tt):
+    """Attribution probe (never a verdict): was the wrong answer remembered?
+
+    The call is repeated after emptying the manager's computed table (a
+    private attribute, read only here).  If the answer is right now, the
+    failure is owed to an entry that should have been flushed by one of the
+    cache-invalidating events of this run; their properties are added.
+    """
+    lc = getattr(w, 'last_call', None)
+    g = w.mgrs[m]
+    if lc is None or not hasattr(g.raw, '_ite_table'):
+        return []
+    try:
+        g.raw._ite_table = dict()
+        fn, a, kw = lc
+        v = fn(*a, **kw)
+        w.touch()
+        ok = ref_ok(w, m, v) and w.den(m, v) == tt
+        del v
+    except Exception:
+        return []
+    if not ok:
+        return []
+    tags = []
+    if w.stats['gc_freed']:
+        tags.append('C06')
+    if w.stats['swap'] or w.stats['sift'] or w.stats['reorder_to'] or w.stats['pairs']:
+        tags.append('C07')
+    if w.stats['undeclare_removed']:
+        tags.append('C14')
+    w.notes.append('wrong answer disappears when the computed table is emptied')
+    return tags
+
+
 def ref_ok(w, m, val):
     g = w.mgrs[m]
     if g.flavor == 'raw':
@@ -108,12 +143,17 @@ def take_result(w, m, ok, val, tt, prop, keep=True, what='result'):
     """Judge a returned reference and make it a handle."""
     tags = owner_tags(w, prop)
     if not ok:
+        tags = tags + [t for t in stale_cache_tags(w, m, tt) if t not in tags]
         w.fail('exception:' + val[0], f'{what}: valid call raised {val[0]}: {val[1]}', tags)
     if not ref_ok(w, m, val):
+        tags = tags + [t for t in stale_cache_tags(w, m, tt) if t not in tags]
         w.fail('bad_reference', f'{what}: returned {type(val).__name__} {val!r:.80} is not a reference of the manager', tags)
     d = w.den(m, val)
     if d != tt:
-        w.fail('wrong_result', f'{what}: returned @{node_of(val)} denotes a different function than the model', tags)
+        u = node_of(val)
+        tags = tags + [t for t in stale_cache_tags(w, m, tt) if t not in tags]
+        w.fail('wrong_result', f'{what}: returned @{u} denotes a different function than the model'
+               + ('; ' + w.notes[-1] if w.notes else ''), tags)
     g = w.mgrs[m]
     if g.flavor == 'raw':
         if not keep:
@@ -257,6 +297,118 @@ def op_eqcheck(w, ins):
     one = 1 if g.flavor == 'raw' else node_of(g.api.true)
     if (node_of(a.ref) == one) != (a.tt == w.tt.mask) or (node_of(a.ref) == -one) != (a.tt == 0):
         w.fail('I-canon', f'handle @{node_of(a.ref)}: comparison with true/false disagrees with validity/unsatisfiability', ['C02'])
+
+
+def op_probe(w, ins):
+    """Directed interleaving (P-cache steering, DESIGN 4.3): an intermediate
+    result that nobody references is used as an operand, a collection frees
+    it, another function recycles its node number, and the same integers are
+    asked again.  Both flavours; a remembered answer shows as a wrong result."""
+    m = ins.get('m', 0)
+    g_ = w.mgrs[m]
+    a = w.pick(ins['a'], m)
+    if a is None:
+        return 'skip'
+    b = w.pick(ins['b'], m)
+    c = w.pick(ins['c'], m)
+    T = w.tt
+    if g_.flavor == 'raw' and g_.api.configure()['reordering']:
+        # an unreferenced operand is the caller's risk when reordering can
+        # fire inside the call (C09 covers dd.bdd only for referenced operands)
+        return 'skip'
+    s1 = ins['sym1'] if ins['sym1'] in SYM2CONN else 'and'
+    s2 = ins['sym2'] if ins['sym2'] in SYM2CONN else 'or'
+    api = g_.api
+    ok, g = call(w, api.apply, s1, a.ref, b.ref)
+    gt = conn(T, SYM2CONN[s1], a.tt, b.tt)
+    tags = owner_tags(w, 'C01')
+    if not ok:
+        w.fail('exception:' + g[0], f'apply {s1!r} raised {g[1]}', tags)
+    gnode = node_of(g)
+    if w.den(m, g) != gt:
+        w.fail('wrong_result', f'apply {s1!r} (probe, operand)', tags)
+    sec = ins.get('second') or dict(k='apply')
+    dec = declared(w, m)
+    if sec['k'] == 'quant':
+        ks = mask_to_ks(sec['vars'], dec)
+        qn = [w.names[k] for k in ks]
+        fa = bool(sec['forall'])
+        owner = 'C03'
+
+        def second(x):
+            return call(w, api.quantify, x, qn, fa)
+
+        def model(xt):
+            return T.forall(xt, ks) if fa else T.exists(xt, ks)
+    elif sec['k'] == 'let':
+        prs = [(k % w.nv, bool(v)) for k, v in sec['pairs'] if (k % w.nv) in dec]
+        dd_ = {w.names[k]: v for k, v in prs}
+        if not dd_:
+            return 'skip'
+        owner = 'C04'
+
+        def second(x):
+            return call(w, api.let, dict(dd_), x)
+
+        def model(xt):
+            for k, v in dict(prs).items():
+                xt = T.cof(xt, k, 1 if v else 0)
+            return xt
+    else:
+        owner = 'C01'
+
+        def second(x):
+            return call(w, api.apply, s2, x, c.ref)
+
+        def model(xt):
+            return conn(T, SYM2CONN[s2], xt, c.tt)
+    ok, v = second(g)
+    take_result(w, m, ok, v, model(gt), owner, bool(ins.get('keep_first', True)), f'{sec["k"]} (probe, first)')
+    del v, g                      # autoref: the intermediate handle dies here
+    w.touch()
+    if w.ledger(m)[abs(gnode)] or abs(gnode) == 1:
+        return                    # somebody holds that node: it cannot be recycled
+    if ins.get('rooted') and g_.flavor == 'raw':
+        ok, v = call(w, g_.raw.collect_garbage, [gnode])
+    else:
+        ok, v = call(w, api.collect_garbage)
+    expect_ok(w, ok, v, 'C06', 'collect_garbage (probe)')
+    w.stats['gc_full'] += 0
+    if abs(gnode) in w.snapshot(m).succ:
+        return
+    w.stats['gc_freed'] += 1
+    w.stats['probe_freed'] += 1
+    for sym3, i, j in ins['tries']:
+        if sym3 not in SYM2CONN:
+            continue
+        x = w.pick(i, m)
+        y = w.pick(j, m)
+        ok, h = call(w, api.apply, sym3, x.ref, y.ref)
+        if not ok:
+            w.fail('exception:' + h[0], f'apply {sym3!r} raised {h[1]}', owner_tags(w, 'C01'))
+        ht = conn(T, SYM2CONN[sym3], x.tt, y.tt)
+        hn = node_of(h)
+        if abs(hn) != abs(gnode):
+            del h
+            continue
+        w.stats['probe_recycled'] += 1
+        if w.den(m, h) != ht:
+            w.fail('wrong_result', f'apply {sym3!r} (probe, recycled number)', owner_tags(w, 'C01'))
+        # the same integers as in the first call
+        if g_.flavor == 'raw':
+            arg, at = gnode, (ht if hn == gnode else T.neg(ht))
+            ok, v = second(arg)
+        else:
+            if hn != gnode:
+                ok, nh = call(w, lambda f: ~f, h)
+                if not ok:
+                    return
+                h = nh
+                ht = T.neg(ht)
+            at = ht
+            ok, v = second(h)
+        take_result(w, m, ok, v, model(at), owner, False, f'{sec["k"]} (probe, same integers after the number was recycled)')
+        break
 
 
 # ---------------------------------------------------------------------------
@@ -736,6 +888,7 @@ OPS = {
     'ite': (op_ite, 'C01'),
     'fop': (op_fop, 'C01'),
     'eqcheck': (op_eqcheck, 'C02'),
+    'probe': (op_probe, 'C01'),
     'quant': (op_quant, 'C03'),
     'let': (op_let, 'C04'),
     'cube': (op_cube, 'C01'),
